@@ -571,9 +571,19 @@ impl RoomAuthorisations {
         let verifying_key = self.signing_key.export_verifying_key();
         let mut rooms = Vec::new();
         for insert_entity in &mut mutation_query.mutate_entities {
-            let mut rooms_ent = self.validate_entity_mutation(insert_entity, &verifying_key)?;
+            let rooms_ent = self.validate_entity_mutation(insert_entity, &verifying_key)?;
 
-            rooms.append(&mut rooms_ent);
+            // every returned room is a copy of the stored room changed by one entry only:
+            // two entries for the same room in one mutation cannot be applied to the in memory room
+            for room in rooms_ent {
+                if rooms.iter().any(|r: &Room| r.id == room.id) {
+                    return Err(Error::Query(format!(
+                        "room '{}' is mutated more than once in the same mutation query",
+                        base64_encode(&room.id)
+                    )));
+                }
+                rooms.push(room);
+            }
         }
         Ok(rooms)
     }
